@@ -1,5 +1,5 @@
 P = 'src/filters/png.rs'
-I16 = dict(rule='R5', pat=r'i16::from\((\w+(?:\[[^\]]*\])?)\)', to=r'(\1 as i16)', note='lossless From<u8> for i16 written as a cast')
+I16 = dict(rule='R5', pat=r'i16::from\((\w+(?:\[[^\]]*\])?)\)', to=r'(\1 as i16)', optional=True, note='lossless From<u8> for i16 written as a cast')
 UNIT = dict(
     properties=['C09', 'C04', 'C02'],
     prelude=['alloc.rs'],
